@@ -26,16 +26,23 @@ def db : UniDb := ⟨fun nm =>
   else if nm = asciiStr "QUOTATION MARK" then some 0x22
   else none⟩
 
-/-- the registered test commands of the harness -/
-def cmds (name : Str) : Option ArgTy :=
-  if name = asciiStr "t.s" then some .str else if name = asciiStr "t.v" then some .verbatim else none
+/-- the registered test commands of the harness: every signature shape -/
+def cmds (name : Str) : Option Sig :=
+  if name = asciiStr "t.s" then some ⟨[], some .str⟩
+  else if name = asciiStr "t.v" then some ⟨[], some .verbatim⟩
+  else if name = asciiStr "t.one" then some ⟨[.str], none⟩
+  else if name = asciiStr "t.two" then some ⟨[.str, .verbatim], none⟩
+  else if name = asciiStr "t.mix" then some ⟨[.verbatim], some .str⟩
+  else if name = asciiStr "t.none" then some ⟨[], none⟩
+  else none
 
 def stepLine (line : String) : String :=
   match fields line with
   | ["exec", l] =>
     match strOf l with
     | some l =>
-      match execute db cmds l with
+      match executeSig db cmds l with
+      | .arity => "arity"
       | .noCommand => "nocmd"
       | .unknown => "unknown"
       | .badArg => "badarg"
